@@ -84,6 +84,17 @@ def run_case(cs):
         with open(os.path.join(root, rel), "wb") as f:
             f.write(b"unrelated" + rng.randbytes(6) + bytes([i]))
         added.append(rel)
+    if rng.random() < 0.4:
+        # an unrelated new file that re-uses the former base name of a renamed file in another directory
+        old = rng.choice(sorted(ren))
+        for dd in [""] + dirs:
+            rel = os.path.join(dd, os.path.basename(old))
+            if dd != os.path.dirname(old) and not os.path.exists(os.path.join(root, rel)):
+                with open(os.path.join(root, rel), "wb") as f:
+                    f.write(b"same-name-other-content" + rng.randbytes(5))
+                added.append(rel)
+                classes.add("namesake")
+                break
     steps.append(f"rename {ren} add {added}")
     ctx = {"steps": steps, "renames": ren, "classes": sorted(classes)}
     # ---- without -dr on a copy: missing plus new
@@ -183,7 +194,10 @@ def _dr_step(cs, root, fm, ren, ctx, steps, rel_fmt, classes, prior, stage):
     if "missing file" in r.text:
         cs.violation("dr-reports-missing", {"kind": "dr-missing-output"}, {**ctx, "out": r.text[-400:]})
     for cmd in ("verify", "diff", "create"):
-        r2 = drive.run(cmd, [root] + (world.fmt_args(fm) if cmd == "create" else []))
+        if cmd == "create":
+            r2, new2, before2, after2 = hist.create(root, fm, [])
+        else:
+            r2 = drive.run(cmd, [root])
         steps.append(f"{cmd} => {r2.exit}")
         cs.evaluated()
         cs.count("followup_commands")
@@ -194,4 +208,14 @@ def _dr_step(cs, root, fm, ren, ctx, steps, rel_fmt, classes, prior, stage):
             key = "rename-chain-across-generations" if stage in ("chain", "back") else "followup-after-dr-nonzero"
             cs.violation(key, {"kind": "after-dr", "cmd": cmd, "exit": r2.exit, "stage": stage}, {**ctx, "out": r2.text[-500:]})
             return False
+    # the generation written by the follow-up create knows the renamed files under their new names: verified, not original
+    nm = [n for n in new2.get(".", []) if n.endswith(".mhl")]
+    if nm:
+        m2 = xmlread.read_manifest_bytes(after2["."][nm[0]])
+        for rec in m2["hashes"]:
+            if rec["kind"] == "file" and rec["path"] in ren.values():
+                cs.count("renamed_identity_checked")
+                acts = {a for f, dg, a, _ in rec["entries"]}
+                if acts != {"verified"}:
+                    cs.violation("renamed-file-loses-identity", {"kind": "after-dr-actions", "actions": sorted(str(a) for a in acts), "stage": stage}, {**ctx, "path": rec["path"]})
     return True
